@@ -4,8 +4,8 @@
 
 use super::Show;
 use crate::loader::Context;
-use crate::output::{Digits, DocString, PropertyReply, SubstanceReply};
-use crate::types::{BaseUnit, Number, Numeric};
+use crate::output::{Digits, DocString, NumberParts, PropertyReply, SubstanceReply};
+use crate::types::{BaseUnit, BigInt, Number, Numeric};
 use std::collections::BTreeMap;
 use std::iter::once;
 use std::ops::{Add, Div, Mul};
@@ -21,6 +21,19 @@ macro_rules! try_div {
             )
         })?
     };
+}
+
+/// The named units of a conversion target stand for the target without
+/// its constant (`2 kg` names `kg`), so a value expressed in them has to
+/// show that constant, the way `Context::show` does.
+fn show_target_constant(parts: &mut NumberParts, bottom_const: &Numeric) {
+    let (num, den) = bottom_const.to_rational();
+    if num != BigInt::one() {
+        parts.factor = Some(num.to_string());
+    }
+    if den != BigInt::one() {
+        parts.divfactor = Some(den.to_string());
+    }
 }
 
 #[derive(Debug, Clone)]
@@ -180,6 +193,7 @@ impl Substance {
                                     .expect("Already known safe")
                                     .to_parts(context);
                                 res.quantity = value.quantity;
+                                show_target_constant(&mut res, &bottom_const);
                                 res
                             } else {
                                 output_show
@@ -236,6 +250,7 @@ impl Substance {
                             .expect("Already known safe")
                             .to_parts(context);
                         res.quantity = value.quantity;
+                        show_target_constant(&mut res, &bottom_const);
                         res
                     } else {
                         output_show
